@@ -132,10 +132,20 @@ class _NetTap:
 
         def tapped(obs, q=True, log=False):
             out = inner(obs, q=q, log=log)
+            dist = None
+            if q and not log:
+                # the distribution the same network reports for the same input (noise is only resampled by learn())
+                try:
+                    import torch
+
+                    with torch.no_grad():
+                        dist = inner(obs, q=False, log=False).detach().to("cpu").double().numpy().copy()
+                except Exception:
+                    dist = None
             try:
-                calls.append((bool(q), bool(log), out.detach().to("cpu").double().numpy().copy()))
+                calls.append((bool(q), bool(log), out.detach().to("cpu").double().numpy().copy(), dist))
             except Exception:
-                calls.append((bool(q), bool(log), None))
+                calls.append((bool(q), bool(log), None, None))
             return out
 
         object.__setattr__(self.net, "forward", tapped)
@@ -307,11 +317,23 @@ def _check_call(rec, case, agent, snap, batch, g, online_calls, target_calls, si
     tol_ref = 1e-5 + 4 * EPS32 * (max(abs(vmin), abs(vmax)) / dz + atoms)
 
     # --- the source is the target network's distribution for the greedy next action; log_p the online one's
-    tq = [o for (q, lg, o) in target_calls if (not q) and (not lg) and o is not None]
-    oq = [o for (q, lg, o) in online_calls if q and (not lg) and o is not None]
-    ol = [o for (q, lg, o) in online_calls if (not q) and lg and o is not None]
+    tq = [o for (q, lg, o, _) in target_calls if (not q) and (not lg) and o is not None]
+    oq = [o for (q, lg, o, _) in online_calls if q and (not lg) and o is not None]
+    od = [dd for (q, lg, o, dd) in online_calls if q and (not lg) and o is not None]
+    ol = [o for (q, lg, o, _) in online_calls if (not q) and lg and o is not None]
     if len(tq) == 1 and len(oq) == 1 and len(ol) == 1:
         tq, oq, ol = tq[0], oq[0], ol[0]
+        if od and od[0] is not None and od[0].shape[:2] == oq.shape:
+            # "greedy next action": greedy with respect to the expectation of the return distributions the online
+            # network itself reports for the next observation
+            exp_q = (od[0] * z[None, None, :]).sum(axis=-1)
+            rec.hit("q_is_expectation_rows", B)
+            badq = np.abs(exp_q - oq) > 1e-4 * max(1.0, abs(vmin), abs(vmax))
+            if badq.any():
+                i, k = (int(v) for v in np.argwhere(badq)[0])
+                rec.violate("source", "q_values_are_not_the_expectation_of_the_reported_distribution", site, row=i, action=k,
+                            q=float(oq[i, k]), expectation=float(exp_q[i, k]),
+                            greedy_differs=bool((exp_q.argmax(1) != oq.argmax(1)).any()))
         for i in range(B):
             rec.hit("source_rows_checked")
             best = np.nonzero(oq[i] == oq[i].max())[0]
